@@ -72,6 +72,57 @@ class P(Prop):
                 b = rng.uniform(lo - 1, hi + 1)
                 xs += [C.bits(max(a, b)), C.bits(min(a, b)), C.bits(min(a, b) + rng.choice([0.0, 0.5, 1.0, 2.5])), C.bits(rng.choice(es))]
             out.append(dict(op="evaluator", ty="Poly0", segs=sg, xs=xs, meta={"class": "evaluator/long"}))
+        # infinite breakpoints (first end -inf, or every end +inf) and histories that START with an infinite query
+        for _ in range(10 if tier == "quick" else 120):
+            k = rng.randint(2, 6)
+            es, sg = G.tag_segs(rng, k)
+            sg = [list(s_) for s_ in sg]
+            st = rng.choice(["first_neg_inf", "first_neg_inf", "all_pos_inf", "two_neg_inf", "last_pos_inf"])
+            if st == "first_neg_inf":
+                sg[0][0] = C.bits(float("-inf"))
+            elif st == "two_neg_inf":
+                sg[0][0] = sg[1][0] = C.bits(float("-inf"))
+            elif st == "all_pos_inf":
+                for s_ in sg:
+                    s_[0] = C.bits(float("inf"))
+            else:
+                sg[-1][0] = C.bits(float("inf"))
+            first = C.bits(rng.choice([float("-inf"), float("-inf"), float("inf")]))
+            es2 = [C.fl(s_[0]) for s_ in sg]
+            xs = [first] + history(rng, es2, rng.randint(0, 6), nan=self.NAN)
+            if rng.random() < 0.3:
+                xs = history(rng, es2, 2, nan=self.NAN) + xs
+            out.append(dict(op="evaluator", ty="Poly0", segs=sg, xs=xs, meta={"class": "evaluator/infinite_ends/" + st}))
+        # the answer itself, bit for bit, against direct evaluation by the crate on the same argument (pieces whose value depends on
+        # the sign of a zero argument; repeated arguments that compare equal but differ in bits: +0.0 / -0.0)
+        for _ in range(16 if tier == "quick" else 200):
+            ty = rng.choice(["Poly1", "Poly3", "Poly1"])
+            k = rng.randint(1, 4)
+            es, sg = G.segs(rng, ty, k)
+            sg = [list(s_) for s_ in sg]
+            nco = G.arity(ty)
+            for s_ in sg:
+                s_[1] = C.bits(rng.choice([-0.0, 0.0, -0.0]))           # constant term a zero of either sign
+                s_[2] = C.bits(rng.choice([1.0, -1.0, 2.0]))
+            j = rng.randrange(k)
+            sg[j][0] = C.bits(rng.choice([0.5, 1.0, 3.0]))             # some piece contains 0
+            for i in range(j):
+                sg[i][0] = C.bits(-1.0 - (j - i))
+            for i in range(j + 1, k):
+                sg[i][0] = C.bits(C.fl(sg[i - 1][0]) + 1.0)
+            z = [C.bits(0.0), C.bits(-0.0)]
+            xs = [rng.choice(z + z + [C.bits(0.25), C.bits(-1.5), C.bits(5e-324), C.bits(-5e-324)]) for _ in range(rng.randint(2, 8))]
+            xs[rng.randrange(len(xs) - 1) + 1] = z[rng.randrange(2)]
+            xs[0] = z[rng.randrange(2)] if rng.random() < 0.7 else xs[0]
+            out.append(dict(op="evaluator_direct", ty=ty, segs=sg, xs=xs, meta={"class": "evaluator_direct/signed_zero"}))
+        for _ in range(10 if tier == "quick" else 150):
+            ty = rng.choice(["Poly3", "Poly1", "Log<Poly2>"])
+            k = rng.randint(1, 6)
+            es, sg = G.segs(rng, ty, k)
+            xs = history(rng, es, rng.randint(2, 20), nan=False)
+            if ty.startswith("Log"):
+                xs = [b for b in xs if C.fl(b) > 0] or [C.bits(1.5)]
+            out.append(dict(op="evaluator_direct", ty=ty, segs=sg, xs=xs, libm=ty.startswith("Log"), meta={"class": "evaluator_direct/" + ty}))
         return out
 
     def coq_term(self, case, h):
@@ -82,6 +133,18 @@ class P(Prop):
                                                  C.zlistlist(case["segs"]), C.zlist(case["xs"]))
 
     def oracle(self, case, h):
+        if case["op"] == "evaluator_direct":
+            if h["r"] == "PANIC":
+                return "evaluator panicked: %s" % h.get("msg")
+            r = h["r"]
+            for k, xb in enumerate(case["xs"]):
+                x = C.fl(xb)
+                if x != x:
+                    continue
+                if C.canon(r[2 * k]) != C.canon(r[2 * k + 1]):
+                    return "query %d x=%r (history %s): evaluator answered %r (0x%016x), direct evaluation of the same function gives %r (0x%016x)" % (
+                        k, x, [C.fl(b) for b in case["xs"][:k]], C.fl(r[2 * k]), r[2 * k], C.fl(r[2 * k + 1]), r[2 * k + 1])
+            return None
         if case["op"] != "evaluator":
             return None
         segs = case["segs"]
